@@ -1,2 +1,184 @@
--- placeholder driver (model for C20 not built yet)
-def main : IO Unit := pure ()
+/-
+  Driver for the HTTP gateway model (C20).  One request per line, 17 tokens:
+
+    req <key> <pattern> <method> <path> <query> <keyhdr> <options> <corr>
+        <rmatch> <nsget> <nslist> <lookup> <connect> <pyroerrs> <bind> <meta> <result>
+
+  Str = comma separated code points ("-" = empty string); List Str = Strs joined by ";" ("~" = empty list)
+    key      none | <hex>                 pattern  none | <Str>
+    query    ~ | k:v;v;..|k:v..           (parse_qs result, dict order)
+    corr     a | i | v
+    rmatch   ~ | name:0/1|...             re.match(pattern, name) for every name the harness computed
+    nsget    ok | n<cls> (NamingError) | e<cls>
+    nslist   e<cls> | <List Str>
+    lookup   <default cls>/~ | <default cls>/name:u<uri>|name:e<cls>|...
+    connect  ~ | uri:<cls>|...            (listed uris raise)        bind: same
+    pyroerrs ~ | <cls>;<cls>..            classes that are PyroError subclasses
+    meta     e<cls> | <methods>/<attrs>/<oneway>   (List Str each)
+    result   none | ret:<hex> | exc:<hex> | raised:<cls>   (what a non-oneway invocation gives back)
+    cls      assertion | attribute | value | type | o<id>
+
+  Answer:  <status> <ctype> <corr 0/1> <body> # <action>*     |   escaped <cls> # <action>*
+  If the model asked `rmatch` for a name outside the table the answer is "bad-table" (the model is
+  run with both defaults and the answers compared).
+-/
+import PyroModel.Gateway
+import Driver.Util
+
+open Pyro Pyro.Gateway Driver
+
+def pStr (s : String) : Option Str := parseNatList s
+
+def pStrList (s : String) : Option (List Str) :=
+  if s == "~" then some [] else (s.splitOn ";").mapM pStr
+
+def pCls (s : String) : Option ErrCls :=
+  if s == "assertion" then some .assertion
+  else if s == "attribute" then some .attribute
+  else if s == "value" then some .value
+  else if s == "type" then some .type
+  else if s.startsWith "o" then (s.drop 1).toNat?.map .other
+  else none
+
+/-- "~" or entries joined by "|" -/
+def pEntries (s : String) : List String := if s == "~" then [] else s.splitOn "|"
+
+def pPair (s : String) : Option (String × String) :=
+  match s.splitOn ":" with
+  | [a, b] => some (a, b)
+  | _ => none
+
+def pQuery (s : String) : Option (List (Str × List Str)) :=
+  (pEntries s).mapM fun e => do
+    let (k, v) ← pPair e
+    pure (← pStr k, ← pStrList v)
+
+def pBoolTable (s : String) : Option (List (Str × Bool)) :=
+  (pEntries s).mapM fun e => do
+    let (k, v) ← pPair e
+    pure (← pStr k, v == "1")
+
+def pClsTable (s : String) : Option (List (Str × ErrCls)) :=
+  (pEntries s).mapM fun e => do
+    let (k, v) ← pPair e
+    pure (← pStr k, ← pCls v)
+
+def pLookupTable (s : String) : Option (ErrCls × List (Str × Except ErrCls Str)) :=
+  match s.splitOn "/" with
+  | [d, t] => do
+    let d ← pCls d
+    let t ← (pEntries t).mapM fun e => do
+      let (k, v) ← pPair e
+      let k ← pStr k
+      if v.startsWith "u" then pure (k, Except.ok (← pStr (v.drop 1).toString))
+      else if v.startsWith "e" then pure (k, Except.error (← pCls (v.drop 1).toString))
+      else none
+    pure (d, t)
+  | _ => none
+
+def assoc {β : Type} (k : Str) : List (Str × β) → Option β
+  | [] => none
+  | (k', v) :: rest => if k' = k then some v else assoc k rest
+
+def pMeta (s : String) : Option (Except ErrCls Meta) :=
+  if s.startsWith "e" then (pCls (s.drop 1).toString).map Except.error
+  else match s.splitOn "/" with
+    | [m, a, o] => do pure (Except.ok { methods := ← pStrList m, attrs := ← pStrList a, oneway := ← pStrList o })
+    | _ => none
+
+def pResult (s : String) : Option CallResult :=
+  if s == "none" then some .none
+  else match s.splitOn ":" with
+    | ["ret", h] => (hexToBytes h).map .ret
+    | ["exc", h] => (hexToBytes h).map .exc
+    | ["raised", c] => (pCls c).map .raised
+    | _ => none
+
+/-! printing -/
+
+def sStr (s : Str) : String := natListToString s
+def sStrList (l : List Str) : String := if l.isEmpty then "~" else ";".intercalate (l.map sStr)
+def sCls : ErrCls → String
+  | .assertion => "assertion" | .attribute => "attribute" | .value => "value" | .type => "type"
+  | .other n => s!"o{n}"
+def sLit : Lit → String
+  | .notAllowed => "notAllowed" | .optionsOk => "optionsOk" | .notFound => "notFound"
+  | .badKey => "badKey" | .denied => "denied" | .nsDown => "nsDown"
+def sCType : CType → String
+  | .none => "none" | .plain => "plain" | .html => "html" | .json => "json"
+def sBody : Body → String
+  | .empty => "empty"
+  | .lit t => "lit:" ++ sLit t
+  | .raw d => "raw:" ++ bytesToHex d
+  | .metaInfo m a => "meta:" ++ sStrList m ++ "/" ++ sStrList a
+  | .error c => "error:" ++ sCls c
+  | .homepage rows =>
+    "home:" ++ (if rows.isEmpty then "~" else ";".intercalate (rows.map fun (n, b) => sStr n ++ "+" ++ (if b then "1" else "0")))
+def sPVal : PVal → String
+  | .one v => "s" ++ sStr v
+  | .many vs => "l" ++ sStrList vs
+def sParams (ps : Params) : String :=
+  if ps.isEmpty then "~" else "&".intercalate (ps.map fun (k, v) => sStr k ++ "=" ++ sPVal v)
+def sAction : Action → String
+  | .getNameServer => "gns"
+  | .nsList r => "nslist:" ++ (match r with | none => "none" | some p => sStr p)
+  | .lookup n => "lookup:" ++ sStr n
+  | .batchLookup ns => "batch:" ++ sStrList ns
+  | .connect u => "connect:" ++ sStr u
+  | .bind u => "bind:" ++ sStr u
+  | .getMetadata u => "getmeta:" ++ sStr u
+  | .call u m ps ow => s!"call:{sStr u}:{sStr m}:{if ow then 1 else 0}:{sParams ps}"
+  | .getattr u m => s!"getattr:{sStr u}:{sStr m}"
+  | .release u => "release:" ++ sStr u
+def sOut (r : Reply × List Action) : String :=
+  let acts := " ".intercalate (r.2.map sAction)
+  let tail := if r.2.isEmpty then " #" else " # " ++ acts
+  match r.1 with
+  | .http x => s!"{x.status} {sCType x.ctype} {if x.corrId then 1 else 0} {sBody x.body}" ++ tail
+  | .escaped c => "escaped " ++ sCls c ++ tail
+
+def step : List String → String
+  | ["req", key, pattern, method, path, query, keyhdr, options, corr,
+     rmatch, nsget, nslist, lookup, connect, pyroerrs, bind, meta, result] =>
+    let r : Option String := do
+      let key : Option Bytes ← if key == "none" then some none else (hexToBytes key).map some
+      let pattern : Option Str ← if pattern == "none" then some none else (pStr pattern).map some
+      let corr ← if corr == "a" then some Corr.absent else if corr == "i" then some Corr.invalid
+                 else if corr == "v" then some Corr.valid else none
+      let req : Req := { method := ← pStr method, path := ← pStr path, query := ← pQuery query,
+                         keyHeader := ← pStr keyhdr, options := ← pStr options, corr }
+      let rtab ← pBoolTable rmatch
+      let (nsGet, naming) : Option ErrCls × Bool ←
+        if nsget == "ok" then some (none, false)
+        else if nsget.startsWith "n" then (pCls (nsget.drop 1).toString).map fun c => (some c, true)
+        else if nsget.startsWith "e" then (pCls (nsget.drop 1).toString).map fun c => (some c, false)
+        else none
+      let nsl : Except ErrCls (List Str) ←
+        if nslist.startsWith "e" then (pCls (nslist.drop 1).toString).map Except.error
+        else (pStrList nslist).map Except.ok
+      let (ldef, ltab) ← pLookupTable lookup
+      let ctab ← pClsTable connect
+      let btab ← pClsTable bind
+      let perr ← if pyroerrs == "~" then some [] else (pyroerrs.splitOn ";").mapM pCls
+      let m ← pMeta meta
+      let res ← pResult result
+      let be (dflt : Bool) : Backend := {
+        rmatch := fun p n => if some p = pattern then (match assoc n rtab with | some b => b | none => dflt) else dflt
+        nsGet := nsGet
+        nsGetIsNaming := naming
+        nsList := fun _ => nsl
+        lookup := fun n => match assoc n ltab with | some r => r | none => .error ldef
+        connect := fun u => assoc u ctab
+        isPyroError := fun c => perr.contains c
+        bind := fun u => assoc u btab
+        getMeta := fun _ => m
+        call := fun _ _ _ ow => if ow then .none else res
+        getattr := fun _ _ => res }
+      let cfg : Cfg := { key, pattern }
+      let o1 := sOut (app cfg (be false) req)
+      let o2 := sOut (app cfg (be true) req)
+      pure (if o1 == o2 then o1 else "bad-table")
+    r.getD "bad-op"
+  | _ => "bad-op"
+
+def main : IO Unit := runDriver step
